@@ -119,10 +119,10 @@ fn any_ty(r: &mut Rng) -> Ty { [Ty::Normal, Ty::Silent, Ty::Atomic, Ty::Compound
 fn mostly(r: &mut Rng, t: Ty) -> Ty { if r.chance(3, 4) { t } else { any_ty(r) } }
 fn strlit(r: &mut Rng) -> String { ["x", "y", "xy", "é", "", "yx", " "][r.weighted(&[6, 5, 3, 2, 1, 1, 1])].to_string() }
 fn small(r: &mut Rng, i: usize, n: usize, c: &GenCfg) -> GE { gen_expr(r, 1, i, n, c) }
-/// random binary tree over the leaves with operator `op`, leaning left with probability lean/4
+/// random binary tree over the leaves with operator `op`, leaning left with probability lean/4 (lean = 9: right-nested)
 fn tree(r: &mut Rng, mut leaves: Vec<GE>, op: fn(GE, GE) -> GE, lean: u64) -> GE {
     if leaves.len() == 1 { return leaves.pop().unwrap(); }
-    let k = if r.chance(lean, 4) { leaves.len() - 1 } else { 1 + r.below(leaves.len() as u64 - 1) as usize };
+    let k = if lean == 9 { 1 } else if r.chance(lean, 4) { leaves.len() - 1 } else { 1 + r.below(leaves.len() as u64 - 1) as usize };
     let right = leaves.split_off(k);
     op(tree(r, leaves, op, lean), tree(r, right, op, lean))
 }
@@ -151,7 +151,7 @@ fn stack_expr(r: &mut Rng, d: u32, i: usize, n: usize, x: bool) -> GE {
 
 /// kind: 0 rotate 1 skip 2 unroll 3 concatenate 4 factor 5 list 6 restore; `wild` = shapes only the structural runs can take
 /// (undefined names, cyclic references, counts that make the unroller panic)
-fn shaped(r: &mut Rng, kind: u32, x: bool, wild: bool) -> Vec<GRule> {
+fn shaped(r: &mut Rng, kind: u32, x: bool, wild: bool, huge_ok: bool) -> Vec<GRule> {
     let n = 3usize;
     let c = GenCfg { stack: kind == 6, extras: x, counts: r.chance(1, 3), builtins: r.chance(1, 5) };
     let mut rules: Vec<GRule> = (0..n).map(|i| GRule { name: format!("r{}", i), ty: any_ty(r), e: gen_expr(r, 2, i, n, &c) }).collect();
@@ -162,12 +162,12 @@ fn shaped(r: &mut Rng, kind: u32, x: bool, wild: bool) -> Vec<GRule> {
         1 => {
             rules[0].ty = mostly(r, Ty::Atomic);
             // helper rules: string choices (inlinable), or not
-            rules[2].e = match r.below(4) { 0 => s(&strlit(r)), 1 => cho(s(&strlit(r)), s(&strlit(r))), 2 => seq(s("x"), s("y")), _ => GE::Range('x', 'y') };
+            rules[2].e = match r.below(6) { 0 | 1 => s(&strlit(r)), 2 | 3 => cho(s(&strlit(r)), s(&strlit(r))), 4 => seq(s("x"), s("y")), _ => GE::Range('x', 'y') };
             rules[1].e = match r.below(5) { 0 => s(&strlit(r)), 1 => cho(s(&strlit(r)), id("r2")), 2 => cho(id("r2"), s(&strlit(r))), 3 => id("r2"), _ => cho(s(&strlit(r)), cho(s(&strlit(r)), s(&strlit(r)))) };
             let k = 1 + r.below(4) as usize;
             let alts: Vec<GE> = (0..k).map(|_| match r.weighted(&[8, 3, 2, 1, 1, if wild { 1 } else { 0 }]) {
                 0 => s(&strlit(r)), 1 => id("r1"), 2 => id("r2"), 3 => GE::Ins("x".into()), 4 => id(["ANY", "ASCII_DIGIT", "SOI"][r.below(3) as usize]), _ => id("undefined_rule") }).collect();
-            let lean = [0, 0, 0, 2, 4][r.below(5) as usize];
+            let lean = [9, 9, 9, 9, 9, 0, 2, 4][r.below(8) as usize];
             let alt = tree(r, alts, cho, lean);
             let core = match r.weighted(&[12, 1, 1, 1, 1]) {
                 0 => GE::Rep(bx(seq(GE::Neg(bx(alt)), id("ANY")))), 1 => GE::Rep1(bx(seq(GE::Neg(bx(alt)), id("ANY")))),
@@ -176,7 +176,9 @@ fn shaped(r: &mut Rng, kind: u32, x: bool, wild: bool) -> Vec<GRule> {
         }
         2 => { let inner = if r.chance(1, 3) { GE::RepMM(bx(small(r, 0, n, &c)), r.below(3) as u32, 1 + r.below(3) as u32) } else { small(r, 0, n, &c) };
                // u32::MAX makes `num + 1` overflow at once; u32::MAX - 1 does so only for e{n,} (`min + 2`), elsewhere it would build 2^32 clones
-               let huge = wild && r.chance(1, 6);
+               // (only when the driver found the unroller's `num + 1` arithmetic in the tree: with the inclusive ranges of the repaired
+               //  unroller such a count means 2^32 clones)
+               let huge = wild && r.chance(1, 6) && huge_ok;
                let big = if huge { u32::MAX } else { r.below(4) as u32 };
                let lo = if wild { 0 } else { 1 };
                let e = match r.below(6) { 0 => GE::RepX(bx(inner), big.max(lo)), 1 => GE::RepMin(bx(inner), if huge && r.chance(1, 2) { u32::MAX - 1 } else { big }), 2 => GE::RepMax(bx(inner), big.max(lo)),
@@ -344,11 +346,11 @@ fn main() {
     let mut st = Stats { evals: 0, fired: [0; 9], seen: HashSet::new(), distinct_fired: 0, panics: 0, vm_runs: 0, vm_diff_known: 0, contracts: 0 };
     match mode.as_str() {
         "struct" => {
-            let count = arg_u64(2, 500); let mut rng = Rng::new(arg_u64(3, 0));
+            let count = arg_u64(2, 500); let mut rng = Rng::new(arg_u64(3, 0)); let huge_ok = arg(4) == "huge";
             for k in 0..count {
                 let kind = (k % 8) as u32;
                 let g = if kind == 7 { let c = GenCfg { stack: rng.chance(1, 2), extras: x, counts: rng.chance(1, 2), builtins: rng.chance(1, 4) }; gen_grammar(&mut rng, &c) }
-                        else { let wild = rng.chance(1, 4); shaped(&mut rng, kind, x, wild) };
+                        else { let wild = rng.chance(1, 4); shaped(&mut rng, kind, x, wild, huge_ok) };
                 structural(&mut w, &mut st, &g, x);
             }
         }
@@ -357,7 +359,7 @@ fn main() {
             for k in 0..count {
                 let kind = (k % 8) as u32;
                 let g = if kind == 7 { let c = GenCfg { stack: rng.chance(1, 2), extras: x, counts: rng.chance(1, 2), builtins: rng.chance(1, 4) }; gen_grammar(&mut rng, &c) }
-                        else { let wild = rng.chance(1, 4); shaped(&mut rng, kind, x, wild) };
+                        else { let wild = rng.chance(1, 4); shaped(&mut rng, kind, x, wild, arg(4) == "huge") };
                 writeln!(w, "{}\t{}", k, sexp_grammar(&g)).unwrap();
             }
         }
@@ -366,7 +368,7 @@ fn main() {
             for k in 0..count {
                 let kind = (k % 8) as u32;
                 let g = if kind == 7 { let c = GenCfg { stack: rng.chance(1, 2), extras: x, counts: rng.chance(1, 2), builtins: rng.chance(1, 4) }; gen_grammar(&mut rng, &c) }
-                        else { shaped(&mut rng, kind, x, false) };
+                        else { shaped(&mut rng, kind, x, false, false) };
                 let mut g = g; if g[0].ty == Ty::Silent { g[0].ty = Ty::Normal; }
                 let stream = ["rotate", "skip", "unroll", "concat", "factor", "list", "restore", "random"][kind as usize];
                 semantic(&mut w, &mut st, &g, x, maxlen, stream, k, kind == 2 || kind == 6 || k % 5 == 0);
@@ -376,7 +378,7 @@ fn main() {
         "probe" => probe(&mut w, x),
         "one" => { let g = parse_grammar(&arg(2)); structural(&mut w, &mut st, &g, x); }
         "semone" => { let mut g = parse_grammar(&arg(2)); if g[0].ty == Ty::Silent { g[0].ty = Ty::Normal; } semantic(&mut w, &mut st, &g, x, arg_u64(3, 5) as usize, "replay", 0, true); }
-        _ => { eprintln!("usage: c05 struct COUNT SEED | sem COUNT SEED MAXLEN | witness | probe | one GRAMMAR | semone GRAMMAR MAXLEN"); std::process::exit(2); }
+        _ => { eprintln!("usage: c05 struct COUNT SEED [huge] | sem COUNT SEED MAXLEN | witness | probe | one GRAMMAR | semone GRAMMAR MAXLEN"); std::process::exit(2); }
     }
     writeln!(w, "#SUMMARY\tevaluations={}\tdistinct_nontrivial={}\tpanics={}\tvm_runs={}\tvm_diff_lister={}\tcontracts={}\t{}", st.evals + st.vm_runs, st.distinct_fired, st.panics, st.vm_runs,
         st.vm_diff_known, st.contracts, (0..9).map(|p| format!("fired{}={}", p, st.fired[p])).collect::<Vec<_>>().join("\t")).unwrap();
